@@ -56,6 +56,8 @@ typedef struct scn {
 	int         retry[2];  // RESEND or -1 (infinite)
 	int         big;       // request bodies of BIGBODY bytes
 	int         sockdflt;  // the socket keeps its default resend time (60 s); only the contexts are set
+	const int  *prefix;    // fault letters applied before the enumerated ones (a seeded start state)
+	int         nprefix;
 } scn;
 #define BIGBODY 120000
 static int        g_depth;
@@ -717,8 +719,8 @@ run_retry(void *arg)
 	}
 
 	// ---- the fault sequence ---------------------------------------------------
-	for (int step = 0; step < g_depth; step++) {
-		int f = g_map[vs_choose(VK_ENV, g_nmap)];
+	for (int step = 0; step < sc->nprefix + g_depth; step++) {
+		int f = step < sc->nprefix ? sc->prefix[step] : g_map[vs_choose(VK_ENV, g_nmap)];
 		if (f == F_END)
 			break;
 		snprintf(g_seq + strlen(g_seq), sizeof(g_seq) - strlen(g_seq), " %s",
@@ -1061,6 +1063,7 @@ main(int argc, char **argv)
 {
 	vx_init(argc, argv, "C12");
 	int        T    = vx_is_thorough();
+	static const int P_MOVED[] = { F3_READ_SILENT_ADD, F1_READ_CLOSE_HOLDER };
 	static scn SC[] = {
 		{ "sock-resend100", 1, { RESEND, 0 } },
 		{ "2ctx-resend100", 2, { RESEND, RESEND } },
@@ -1070,6 +1073,10 @@ main(int argc, char **argv)
 		{ "2ctx-infinite+100", 2, { -1, RESEND } },
 		{ "2ctx-resend100-big", 2, { RESEND, RESEND }, 1 },
 		{ "2ctx-resend100-sock60s", 2, { RESEND, RESEND }, 0, 1 },
+		// seeded: a second replier appeared and the connection that carried request A was lost, so
+		// A has already moved to the second connection once when the enumerated faults begin
+		{ "sock-resend100-moved-once", 1, { RESEND, 0 }, 0, 0, P_MOVED, 2 },
+		{ "2ctx-resend100-moved-once", 2, { RESEND, RESEND }, 0, 0, P_MOVED, 2 },
 	};
 	static int full[F_NLETTER];
 	for (int i = 0; i < F_NLETTER; i++)
@@ -1077,7 +1084,7 @@ main(int argc, char **argv)
 	g_map   = full;
 	g_nmap  = F_NLETTER;
 	g_depth = T ? 3 : 2;
-	for (int i = 0; i < 8; i++) {
+	for (int i = 0; i < (int) (sizeof(SC) / sizeof(SC[0])); i++) {
 		if (vx_time_left() < 30)
 			break;
 		explore(&SC[i]);
